@@ -1,7 +1,7 @@
 #!/bin/bash
 # usage: tools/refdetail.sh <id> : apply benign_refactors/<id> to a scratch copy and print every violation the sweep sees
 export GOFLAGS=-mod=mod GOPROXY=off GOSUMDB=off GOTOOLCHAIN=local GOWORK=off
-id=$1; r=/tmp/rd-repo-$id; v=/tmp/rd-verif-$id
+id=$1; tag=$(echo $id | tr / _); r=/tmp/rd-repo-$tag; v=/tmp/rd-verif-$tag
 rm -rf $r $v; mkdir -p $v/evidence; rsync -a --exclude .git /repo/ $r/
 cp -r /verif/spec $v/; cp /verif/known_findings.json /verif/manifest_src.json $v/
 (cd $r && patch -s -p1 < /verif/benign_refactors/$id/patch.diff) || echo "PATCH FAILED"
